@@ -31,7 +31,7 @@ func (p *Parser) parseWithStatement() (ast.Statement, error) {
 		if err != nil {
 			return nil, goerrors.InvalidCTEError(
 				fmt.Sprintf("error parsing CTE definition: %v", err),
-				models.Location{},
+				p.currentLocation(),
 				"",
 			).WithCause(err)
 		}
@@ -56,7 +56,7 @@ func (p *Parser) parseWithStatement() (ast.Statement, error) {
 	if err != nil {
 		return nil, goerrors.InvalidCTEError(
 			fmt.Sprintf("error parsing statement after WITH clause: %v", err),
-			models.Location{},
+			p.currentLocation(),
 			"",
 		).WithCause(err)
 	}
@@ -84,7 +84,7 @@ func (p *Parser) parseWithStatement() (ast.Statement, error) {
 	default:
 		return nil, goerrors.InvalidCTEError(
 			fmt.Sprintf("WITH clause not supported with statement type: %T", stmt),
-			models.Location{},
+			p.currentLocation(),
 			"",
 		)
 	}
@@ -103,7 +103,7 @@ func (p *Parser) parseCommonTableExpr() (*ast.CommonTableExpr, error) {
 	if p.depth > MaxRecursionDepth {
 		return nil, goerrors.InvalidCTEError(
 			fmt.Sprintf("maximum recursion depth exceeded (%d) - CTE too deeply nested", MaxRecursionDepth),
-			models.Location{},
+			p.currentLocation(),
 			"",
 		)
 	}
@@ -185,7 +185,7 @@ func (p *Parser) parseCommonTableExpr() (*ast.CommonTableExpr, error) {
 	if err != nil {
 		return nil, goerrors.InvalidCTEError(
 			fmt.Sprintf("error parsing CTE subquery: %v", err),
-			models.Location{},
+			p.currentLocation(),
 			"",
 		).WithCause(err)
 	}
